@@ -38,3 +38,32 @@ package components
 //@   loop 0 invariant range: 0 <= $i && $i <= len(p.filePaths)
 //@   loop 0 invariant stable: p == old(p) && p.filePaths == old(p.filePaths) && p.outPorts == old(p.outPorts) && p.outPorts["out"] == old(p.outPorts["out"]) && wfSrcOut(p.BaseProcess, "out")
 //@   loop 0 invariant so-far: outN[p.outPorts["out"]] == old(outN[p.outPorts["out"]]) + $i && (forall j int :: 0 <= j && j < $i ==> outAt[p.outPorts["out"]][old(outN[p.outPorts["out"]]) + j] != nil && allocated(outAt[p.outPorts["out"]][old(outN[p.outPorts["out"]]) + j]) && ptr(FileIP, outAt[p.outPorts["out"]][old(outN[p.outPorts["out"]]) + j]).path == p.filePaths[j])
+
+// FileGlobber: every match of every pattern, in pattern order and (within a pattern) in the order filepath.Glob returns.
+//@ ghost func globOf(pattern string, epoch int) seq[string]
+//@ ghost func globCount(ps seq[string], k int, epoch int) int
+//@ axiom globCount.zero: forall ps seq[string], e int :: globCount(ps, 0, e) == 0
+//@ axiom globCount.step: forall ps seq[string], k int, e int :: k >= 0 ==> globCount(ps, k + 1, e) == globCount(ps, k, e) + len(globOf(ps[k], e))
+//@ extern path/filepath.Glob(pattern) (matches, err)
+//@   ensures def: err == nil ==> matches == globOf(pattern, fsEpoch)
+
+//@ func (*FileGlobber).Out(p) (res)
+//@   props C19
+//@   ensures def: "out" in p.outPorts && res == p.outPorts["out"]
+
+//@ define globLogged(o *OutPort, base int, ps seq[string], k int, n int, e int) bool = forall j int :: 0 <= j && j < n ==> outAt[o][base + globCount(ps, k, e) + j] != nil && allocated(outAt[o][base + globCount(ps, k, e) + j]) && ptr(FileIP, outAt[o][base + globCount(ps, k, e) + j]).path == globOf(ps[k], e)[j]
+
+//@ func (*FileGlobber).globFiles(p)
+//@   props C19
+//@   requires wf: wfSrcOut(p.BaseProcess, "out")
+//@   modifies *
+//@   ensures emits-every-match-of-every-pattern-in-order[C19]: outN[old(p.outPorts["out"])] == old(outN[p.outPorts["out"]]) + globCount(old(p.globPatterns), len(old(p.globPatterns)), old(fsEpoch)) && (forall k int :: 0 <= k && k < len(old(p.globPatterns)) ==> globLogged(old(p.outPorts["out"]), old(outN[p.outPorts["out"]]), old(p.globPatterns), k, len(globOf(old(p.globPatterns)[k], old(fsEpoch))), old(fsEpoch)))
+//@   loop 0 invariant range: 0 <= $i && $i <= len(p.globPatterns)
+//@   loop 0 invariant stable: p == old(p) && fsEpoch == old(fsEpoch) && p.globPatterns == old(p.globPatterns) && p.outPorts == old(p.outPorts) && p.outPorts["out"] == old(p.outPorts["out"]) && wfSrcOut(p.BaseProcess, "out")
+//@   loop 0 invariant count: outN[p.outPorts["out"]] == old(outN[p.outPorts["out"]]) + globCount(p.globPatterns, $i, fsEpoch)
+//@   loop 0 invariant logged: forall k int :: 0 <= k && k < $i ==> globLogged(p.outPorts["out"], old(outN[p.outPorts["out"]]), p.globPatterns, k, len(globOf(p.globPatterns[k], fsEpoch)), fsEpoch)
+//@   loop 1 invariant range: 0 <= $i && $i <= len(matches) && 0 <= $i0 && $i0 < len(p.globPatterns) && globPtn == p.globPatterns[$i0] && matches == globOf(globPtn, fsEpoch)
+//@   loop 1 invariant stable: p == old(p) && fsEpoch == old(fsEpoch) && p.globPatterns == old(p.globPatterns) && p.outPorts == old(p.outPorts) && p.outPorts["out"] == old(p.outPorts["out"]) && wfSrcOut(p.BaseProcess, "out")
+//@   loop 1 invariant count: outN[p.outPorts["out"]] == old(outN[p.outPorts["out"]]) + globCount(p.globPatterns, $i0, fsEpoch) + $i
+//@   loop 1 invariant logged-earlier: forall k int :: 0 <= k && k < $i0 ==> globLogged(p.outPorts["out"], old(outN[p.outPorts["out"]]), p.globPatterns, k, len(globOf(p.globPatterns[k], fsEpoch)), fsEpoch)
+//@   loop 1 invariant logged-this: globLogged(p.outPorts["out"], old(outN[p.outPorts["out"]]), p.globPatterns, $i0, $i, fsEpoch)
